@@ -1,7 +1,7 @@
 (* C11 -- property theorems only.  Proofs live in C11/Proofs*.v. *)
 From Coq Require Import NArith List Bool.
 From DV Require Import C02.ProofsName.
-From DV Require Import Base.Outcome Base.Bytes Base.Names Base.PName C11.Gen C11.Model C11.Proofs C11.Proofs2 C11.Proofs3 C11.Proofs4 C11.Proofs5 C11.Proofs6 C11.Proofs7.
+From DV Require Import Base.Outcome Base.Bytes Base.Names Base.PName C11.Gen C11.Model C11.Proofs C11.Proofs2 C11.Proofs3 C11.Proofs4 C11.Proofs5 C11.Proofs6 C11.Proofs7 C11.Proofs8 C11.Proofs9.
 Import ListNotations.
 Local Open Scope N_scope.
 
@@ -205,6 +205,8 @@ Theorem C11_built_message_laid_out : forall c ops s0 s a ws,
   C02.Model.run_acc c s0 C02.Model.acc0 ops = (s, a, ws) -> C02.ProofsRun.all_alive ws ->
   Forall (fun b => b < 256) (C02.Model.b_hdr s) ->
   Forall (fun r => C02.Model.r_type r <> RTYPE_TSIG) (C02.Model.a_ar a) ->
+  Forall (fun r => C02.Model.r_type r <> RTYPE_TSIG) (C02.Model.a_an a) ->
+  Forall (fun r => C02.Model.r_type r <> RTYPE_TSIG) (C02.Model.a_ns a) ->
   MsgAt (C02.Model.msg_of s) (length (C02.Model.a_q a)) (map C02.Model.r_type (C02.Model.a_an a))
         (map C02.Model.r_type (C02.Model.a_ns a)) (map C02.Model.r_type (C02.Model.a_ar a)).
 Proof. exact built_message_laid_out. Qed.
@@ -217,6 +219,8 @@ Theorem C11_sign_verify_request_built : forall mac,
   C02.Model.run_acc c s0 C02.Model.acc0 ops = (s, a, ws) -> C02.ProofsRun.all_alive ws ->
   Forall (fun b => b < 256) (C02.Model.b_hdr s) ->
   Forall (fun r => C02.Model.r_type r <> RTYPE_TSIG) (C02.Model.a_ar a) ->
+  Forall (fun r => C02.Model.r_type r <> RTYPE_TSIG) (C02.Model.a_an a) ->
+  Forall (fun r => C02.Model.r_type r <> RTYPE_TSIG) (C02.Model.a_ns a) ->
   same_key ks kr -> k_min kr <= k_sign ks -> within_len_bounds (k_alg ks) (k_sign ks) = true ->
   name_ok (k_name ks) -> t < T48_LIMIT -> fudge < 65536 ->
   client_request mac ks (C02.Model.msg_of s) t fudge = Ok (cx, w) ->
@@ -225,3 +229,98 @@ Theorem C11_sign_verify_request_built : forall mac,
     server_request mac kr w now = Ok (SrvOk cx (C02.Model.msg_of s ++ rr)).
 Proof. exact sign_verify_request_built. Qed.
 Print Assumptions C11_sign_verify_request_built.
+
+Theorem C11_request_outside_window_badtime_built : forall mac,
+  (forall a k d, len (mac a k d) = native_len a) ->
+  forall c ops s0 s a ws ks kr t fudge now cx w,
+  C02.Model.init c = Some s0 -> Forall C02.ProofsBuild.wf_op ops ->
+  C02.Model.run_acc c s0 C02.Model.acc0 ops = (s, a, ws) -> C02.ProofsRun.all_alive ws ->
+  Forall (fun b => b < 256) (C02.Model.b_hdr s) ->
+  Forall (fun r => C02.Model.r_type r <> RTYPE_TSIG) (C02.Model.a_ar a) ->
+  Forall (fun r => C02.Model.r_type r <> RTYPE_TSIG) (C02.Model.a_an a) ->
+  Forall (fun r => C02.Model.r_type r <> RTYPE_TSIG) (C02.Model.a_ns a) ->
+  same_key ks kr -> k_min kr <= k_sign ks -> within_len_bounds (k_alg ks) (k_sign ks) = true ->
+  name_ok (k_name ks) -> t < T48_LIMIT -> fudge < 65536 ->
+  client_request mac ks (C02.Model.msg_of s) t fudge = Ok (cx, w) ->
+  is_valid_at t fudge now = false ->
+  server_request mac kr w now = Ok (SrvBadTime cx (Vars t fudge RC_BADTIME (Some now))).
+Proof. exact request_outside_window_badtime_built. Qed.
+Print Assumptions C11_request_outside_window_badtime_built.
+
+Theorem C11_sign_verify_answer_built : forall mac,
+  (forall a k d, len (mac a k d) = native_len a) ->
+  forall c ops s0 s a ws ks kr cx t fudge now w,
+  C02.Model.init c = Some s0 -> Forall C02.ProofsBuild.wf_op ops ->
+  C02.Model.run_acc c s0 C02.Model.acc0 ops = (s, a, ws) -> C02.ProofsRun.all_alive ws ->
+  Forall (fun b => b < 256) (C02.Model.b_hdr s) ->
+  Forall (fun r => C02.Model.r_type r <> RTYPE_TSIG) (C02.Model.a_ar a) ->
+  Forall (fun r => C02.Model.r_type r <> RTYPE_TSIG) (C02.Model.a_an a) ->
+  Forall (fun r => C02.Model.r_type r <> RTYPE_TSIG) (C02.Model.a_ns a) ->
+  same_key ks kr -> k_min kr <= k_sign ks -> within_len_bounds (k_alg ks) (k_sign ks) = true ->
+  name_ok (k_name ks) -> t < T48_LIMIT -> fudge < 65536 ->
+  (hdr_rcode (C02.Model.msg_of s) =? RC_NOTAUTH) = false ->
+  server_answer mac ks cx (C02.Model.msg_of s) t fudge = Ok w ->
+  is_valid_at t fudge now = true ->
+  exists rr, w = set_arcount (C02.Model.msg_of s) (arcount (C02.Model.msg_of s) + 1) ++ rr /\
+    client_answer mac kr cx w now = Ok (C02.Model.msg_of s ++ rr).
+Proof. exact sign_verify_answer_built. Qed.
+Print Assumptions C11_sign_verify_answer_built.
+
+(* the client transport wrapper (net/client/tsig.rs) *)
+Theorem C11_wrapper_single_unsigned_refused : forall mac k c m now,
+  from_message m = Err TE_MISSING ->
+  wrapper_validate mac k (WTransaction c) (Some m) now = (WTransaction c, Err VE_SERVERUNSIGNED).
+Proof. exact wrapper_single_unsigned_refused. Qed.
+Print Assumptions C11_wrapper_single_unsigned_refused.
+
+Theorem C11_wrapper_stream_unsigned : forall mac k s m now,
+  from_message m = Err TE_MISSING ->
+  wrapper_validate mac k (WSequence s) (Some m) now =
+    if cs_first s then (WSequence s, Err VE_SERVERUNSIGNED)
+    else if cs_unsigned s <? 99 then (WSequence (CSeq (cs_ctx s ++ m) false (cs_unsigned s + 1)), Ok (Some m))
+    else (WSequence s, Err VE_TOOMANYUNSIGNED).
+Proof. exact wrapper_stream_unsigned. Qed.
+Print Assumptions C11_wrapper_stream_unsigned.
+
+Theorem C11_wrapper_stream_end : forall mac k s now,
+  snd (wrapper_validate mac k (WSequence s) None now) = Ok None <-> cs_unsigned s = 0.
+Proof. exact wrapper_stream_end. Qed.
+Print Assumptions C11_wrapper_stream_end.
+
+(* order of the client's checks: MAC before time, on both client paths *)
+Theorem C11_client_mac_error_wins : forall mac k c m now t sm e,
+  get_answer_tsig k m = Ok (Some t) -> stripped m t = Ok sm ->
+  compare_signatures k (ctx_sign mac k (digest_full k c sm (mt_vars t))) (mt_mac t) = Err e ->
+  client_answer mac k c m now = Err e.
+Proof. exact client_answer_mac_before_time. Qed.
+Print Assumptions C11_client_mac_error_wins.
+
+Theorem C11_client_badtime_means_mac_ok : forall mac k c m now,
+  client_answer mac k c m now = Err VE_BADTIME ->
+  exists t sm, get_answer_tsig k m = Ok (Some t) /\ stripped m t = Ok sm /\
+    compare_signatures k (ctx_sign mac k (digest_full k c sm (mt_vars t))) (mt_mac t) = Ok tt /\
+    is_valid_at (mt_time t) (mt_fudge t) now = false.
+Proof. exact client_answer_badtime_means_mac_ok. Qed.
+Print Assumptions C11_client_badtime_means_mac_ok.
+
+Theorem C11_sequence_mac_error_wins : forall mac k s m now t sm e,
+  get_answer_tsig k m = Ok (Some t) -> stripped m t = Ok sm ->
+  compare_signatures k (if cs_first s then ctx_sign mac k (digest_full k (cs_ctx s) sm (mt_vars t))
+                        else ctx_sign mac k (digest_timers k (cs_ctx s) sm (mt_vars t))) (mt_mac t) = Err e ->
+  snd (cseq_answer mac k s m now) = Err e.
+Proof. exact cseq_answer_mac_before_time. Qed.
+Print Assumptions C11_sequence_mac_error_wins.
+
+(* MessageTsig::from_message's scan: accepted only if the TSIG is the last
+   record and no other TSIG precedes it; "missing" iff there is none *)
+Theorem C11_tsig_accepted_only_last : forall m p tys e lim, RecordsAt m p tys e -> e <= lim ->
+  forall fuel t, find_tsig fuel m p lim (N.of_nat (length tys)) = Ok t ->
+  exists pre, tys = pre ++ [RTYPE_TSIG] /\ Forall (fun ty => ty <> RTYPE_TSIG) pre.
+Proof. exact find_tsig_accepts_only_last. Qed.
+Print Assumptions C11_tsig_accepted_only_last.
+
+Theorem C11_tsig_missing_iff : forall m p tys e lim, RecordsAt m p tys e -> e <= lim ->
+  forall fuel, (length tys < fuel)%nat ->
+  (find_tsig fuel m p lim (N.of_nat (length tys)) = Err TE_MISSING <-> Forall (fun ty => ty <> RTYPE_TSIG) tys).
+Proof. exact find_tsig_missing_iff. Qed.
+Print Assumptions C11_tsig_missing_iff.
